@@ -30,7 +30,7 @@ ASSUMPTIONS = ['names that are not valid UTF-8 are generated, but trash-put refu
                'the name dimension is ordinary seeded input generation; the simulator adds clock, layout and real I/O']
 PROBES = ['path-value-over-8k', 'infos-checked', 'relative-path-info', 'absolute-path-info', 'name-needs-escaping', 'newline-in-name', 'percent-in-name',
           'long-name', 'deep-path', 'year-below-1000', 'year-above-3000', 'invalid-utf8-refused', 'rm-exact-path-removed', 'restore-listed',
-          'first-candidate-fails', 'trashed-in-a-later-candidate-after-a-fault']
+          'first-candidate-fails', 'trashed-in-a-later-candidate-after-a-fault', 'per-argument-time-window-checked']
 TECHNIQUE = 'deterministic simulation with simulated clock; byte-level conformance + round trip of each written .trashinfo through an independent spec decoder and the three readers'
 LEVEL_TEXT = 'seeded exploration of names x depth x time x trash-dir kind; invariant on every .trashinfo written by the real trash-put'
 LEVEL_NOTE = 'trusted: model/trashinfo.py (RFC 2396 character set, percent decoder, date grammar)'
@@ -135,7 +135,9 @@ def gen(rng):
         'world': {'mounts': L['mounts'], 'steps': steps},
         'procs': [{'argv': ['trash-put'] + opts + ['--'] + args, 'env': env, 'cwd': rng.choice(['/', home]), 'uid': uid}],
         'dirsalt': rng.randrange(1 << 30),
-        'clock': {'start': start, 'tick_us': rng.choice([137, 400000, 0]), 'utcoffset_s': rng.choice([0, 3600, -18000, 19800, 34200, 50400, -43200]),
+        'clock': {'start': start, 'tick_us': rng.choice([137, 400000, 0]),
+                  # every system call takes simulated time: the arguments of one command are trashed at different moments
+                  'op_us': rng.choice([0, 0, 1000, 300000, 2000000, 120 * 10**6]), 'utcoffset_s': rng.choice([0, 3600, -18000, 19800, 34200, 50400, -43200]),
                   # does the zone have DST rules (time.daylight) and is DST in effect now (tm_isdst)? utcoffset_s is the offset in effect
                   'dst': rng.choice([None, None, {'has': True, 'on': True}, {'has': True, 'on': False}])},
     }
@@ -179,6 +181,34 @@ def check(sim, case, st):
         st.probes['trashed-in-a-later-candidate-after-a-fault'] += 1
     lo = min(r.clock).replace(microsecond=0) if r.clock else None
     hi = max(r.clock).replace(microsecond=0) if r.clock else None
+    # per-argument windows of simulated time: the clock advances by op_us with every system call and by tick_us with every
+    # reading, so the moment of each op of the run is known; an argument is trashed between the end of the previous one
+    # (its rename into files/) and its own rename
+    ck = case.get('clock', {})
+    op_us, tick_us = ck.get('op_us', 0) or 0, ck.get('tick_us', 137)
+    t_start = None
+    windows = {}
+    if r.clock_seq and len(r.trace) > 0:
+        import datetime as _dt2
+        g0 = r.trace[0][0]
+        first_g, first_v = r.clock_seq[0]
+        reads_before_first = 0
+        ops_before_first = sum(1 for ev in r.trace if ev[0] <= first_g)
+        try:
+            t_start = first_v - _dt2.timedelta(microseconds=op_us * ops_before_first)
+
+            def t_at(idx):
+                g = r.trace[idx][0]
+                nread = sum(1 for (rg, _v) in r.clock_seq if rg < g)
+                return t_start + _dt2.timedelta(microseconds=op_us * (idx + 1) + tick_us * nread)
+            prev_end = 0
+            for i, ev in enumerate(r.trace):
+                if ev[2] == 'rename' and ev[6] is None and isinstance(ev[4], str) and '/files/' in ev[4]:
+                    windows.setdefault(posixpath.basename(ev[4]), []).append((t_at(prev_end).replace(microsecond=0) - _dt2.timedelta(seconds=1),
+                                      t_at(i).replace(microsecond=0) + _dt2.timedelta(seconds=1)))
+                    prev_end = i
+        except OverflowError:
+            windows = {}
     rl = OR.run_list(sim, env, uid)
     st.sims += 1
     rr = sim.run({'argv': ['trash-restore', '/'], 'env': env, 'cwd': '/', 'uid': uid, 'stdin': '\n'})
@@ -228,6 +258,14 @@ def check(sim, case, st):
             bad('date-unparseable', 'DeletionDate value %r is not YYYY-MM-DDThh:mm:ss' % (inf.date_value,))
         elif lo is not None and not (lo <= inf.date <= hi):
             bad('date-outside-window', 'DeletionDate %s not within the simulated time of the command [%s, %s]' % (inf.date, lo, hi))
+        else:
+            ws = windows.get(N) or []
+            w = ws[0] if len(ws) == 1 else None       # (the same trash name in two trash dirs: not attributable)
+            if w is not None and op_us:
+                st.probes['per-argument-time-window-checked'] += 1
+                if not (w[0] <= inf.date <= w[1]):
+                    bad('date-not-the-time-of-trashing', 'DeletionDate %s, but this argument was trashed between %s and %s (simulated time; '
+                        'every system call takes %d us)' % (inf.date, w[0], w[1], op_us))
         # read back through the readers
         if inf.date is not None:
             line = '%s %s' % (inf.date.isoformat(' '), loc)
